@@ -327,7 +327,7 @@ def run(ck):
             a_ = init.node.args
             for mod_ in (0, 0.0, None, 5, -3, 2.5):
                 order = []
-                env = {'modulo': mod_, 'initdef': 0, '__setattr__': lambda k, v, order=order: order.append(('set', k, v)),
+                env = {'float': float, 'int': int, 'modulo': mod_, 'initdef': 0, '__setattr__': lambda k, v, order=order: order.append(('set', k, v)),
                        'super().__init__': lambda *aa, order=order, **kk: order.append(('super', kk.get('initdef')))}
                 if a_.vararg:
                     env[a_.vararg.arg] = ()
@@ -338,14 +338,19 @@ def run(ck):
                 if mod_ == 0:
                     good = res == ('raise', 'ValueError') and not any(o[0] == 'super' for o in order)
                 else:
-                    good = res[0] == 'return' and ('set', 'self._mod', mod_) in order and \
-                        ('super', 0) in order and order.index(('set', 'self._mod', mod_)) < order.index(('super', 0))
+                    # the stored modulo is the given object: an int must stay an int (Python reduces
+                    # `int % float` in floating point, which is inexact above 2**53)
+                    stored_ = [i_ for i_, o in enumerate(order) if o[:2] == ('set', 'self._mod') and
+                               type(o[2]) is type(mod_) and o[2] == mod_]
+                    good = res[0] == 'return' and bool(stored_) and \
+                        ('super', 0) in order and stored_[0] < order.index(('super', 0)) and \
+                        not any(o[:2] == ('set', 'self._mod') and type(o[2]) is not type(mod_) for o in order)
                 if not good:
                     bad_.append(f"modulo={mod_!r}: {res}, effects {order}")
             init_run_ok = not bad_
             ck.ob(R4, f"{init.fid} :: abstract run", init_run_ok,
                   "a zero modulo raises ValueError before the block is registered; any other modulo "
-                  "(None included) is stored before super().__init__ runs" if init_run_ok else "; ".join(bad_),
+                  "(None included) is stored unchanged - an int stays an int - before super().__init__ runs" if init_run_ok else "; ".join(bad_),
                   init, init.node)
         except Exception as err:
             ck.note(f"R20.4 abstract run not applicable: {err}")
